@@ -437,6 +437,8 @@ def real_transport_phase(ctx):
             ctx.count("real-transport:" + kind)
             try:
                 ar = conn.async_request(1, b"x")            # a pending request with no expiry (HANDLE_PING)
+                cb_ran = []
+                ar.add_callback(lambda r_: cb_ran.append(1))
                 if partial:
                     feed((_struct.pack("!LB", 40, 0) + b"y" * 40)[:partial])     # the peer dies in the middle of a frame
                 kill_peer()
@@ -458,6 +460,13 @@ def real_transport_phase(ctx):
                                   what="the peer's end of a real %s stream was closed abruptly; serving / waiting on the surviving side did not end with EOFError" % kind)
                 elif not clean(sn):
                     ctx.violation("side-not-clean-after:peer-vanished:" + kind, case, observed=sn, expected="closed and clean", what="after meeting end-of-stream while serving the side is not closed and clean")
+                elif partial is None:
+                    # the pending request has failed: does a caller that POLLS it (ready / error / a registered callback) ever learn that?
+                    polled = [bool(ar.ready) for _ in range(3)]
+                    if not any(polled) and not ar.error and not cb_ran:
+                        ctx.violation("pending-result-never-signals-failure-to-pollers", case, observed={"ready": polled, "error": bool(ar.error), "expired": bool(ar.expired), "callbacks_run": len(cb_ran)},
+                                      expected="ready/error become true or the callback runs", what="after the connection ended a pending AsyncResult keeps answering ready=False, error=False and never runs its callbacks: "
+                                      "only .value / .wait() raise EOFError, a caller that polls waits for ever")
                 try:
                     with C.time_limit(20):
                         try:
